@@ -10,7 +10,7 @@
    parse_adfNN (write_adfNN t) = t are checked case by case (model run by Coq on generated files), not proved. *)
 Require Import Cherab.Common.Qx.
 Require Import Cherab.Model.C08_Text Cherab.Model.C08_Adf.
-Require Import Cherab.Proofs.C08_Records Cherab.Proofs.C08_Tables Cherab.Proofs.C08_Files Cherab.Proofs.C08_Numbers.
+Require Import Cherab.Proofs.C08_Records Cherab.Proofs.C08_Tables Cherab.Proofs.C08_Files Cherab.Proofs.C08_Numbers Cherab.Proofs.C08_Findings Cherab.Proofs.C08_Matcher.
 From Coq Require Import Ascii String.
 
 (* ADF12 / ADF21 / ADF22 data records: for every record width p >= 1 and every number of 9-character fields
@@ -173,6 +173,99 @@ Theorem C08_thermalcx_planes :
 Proof. exact thermalcx_axis. Qed.
 Print Assumptions C08_thermalcx_planes.
 
+(* BLOCK LEVEL, ADF12: a block as the writer model lays it out (38 free header characters, the two levels, QEFREF, the five
+   references, the five counts, the ten fixed-slot sections in records of six) is read to the block's numbers: every grid
+   truncated to its count, densities x 1e6, every q* x 1e-6; the stream is left exactly after the block *)
+Theorem C08_adf12_block_roundtrip :
+  forall (pre up2 lo2 tailh : str) (c40 : Ascii.ascii) (qef : str) (parm cnts s0 s1 s2 s3 s4 s5 s6 s7 s8 s9 rest : list str)
+         (up lo : Z) (qef_v p0 p1 p2 p3 p4 : Q) (n0 n1 n2 n3 n4 : Z) (v0 v1 v2 v3 v4 v5 v6 v7 v8 v9 : list Q),
+  List.length pre = 38%nat -> List.length up2 = 2%nat -> List.length lo2 = 2%nat -> len9 qef ->
+  List.length parm = 5%nat /\ Forall len9 parm -> List.length cnts = 5%nat /\ Forall len9 cnts ->
+  Forall2 section_ok [s0; s1; s2; s3; s4; s5; s6; s7; s8; s9] adf12_sections ->
+  parse_int up2 = Some up -> parse_int lo2 = Some lo ->
+  floats_of [qef] = Some [qef_v] -> floats_of parm = Some [p0; p1; p2; p3; p4] -> ints_of cnts = Some [n0; n1; n2; n3; n4] ->
+  mapM floats_of [s0; s1; s2; s3; s4; s5; s6; s7; s8; s9] = Some [v0; v1; v2; v3; v4; v5; v6; v7; v8; v9] ->
+  adf12_block (write_adf12_block pre up2 lo2 tailh c40 qef parm cnts s0 s1 s2 s3 s4 s5 s6 s7 s8 s9 rest) =
+  Ok ({| e_keys := [KZ up; KZ lo];
+         e_shape := [zlen (take n0 v0); zlen (take n1 v2); zlen (take n2 v4); zlen (take n3 v6); zlen (take n4 v8)];
+         e_vals := [take n0 v0; take n1 v2; scale per_cm3 (take n2 v4); take n3 v6; take n4 v8; scale cm3 (take n0 v1);
+                    scale cm3 (take n1 v3); scale cm3 (take n2 v5); scale cm3 (take n3 v7); scale cm3 (take n4 v9);
+                    [p0; p1; Qred (per_cm3 * p2)%Q; p3; p4; Qred (cm3 * qef_v)%Q]] |}, rest).
+Proof. exact adf12_block_roundtrip. Qed.
+Print Assumptions C08_adf12_block_roundtrip.
+
+(* FILE LEVEL, ADF12: the I5 count (any number of blocks, also 100 and more) followed by that many blocks -- each a text that
+   adf12_block reads as its entry whatever follows, which C08_adf12_block_roundtrip establishes for the writer's blocks --
+   gives the table keyed by transition, a later block of a transition replacing an earlier one *)
+Theorem C08_adf12_file_roundtrip :
+  forall c5 tail blocks rest,
+  List.length c5 = 5%nat -> parse_int c5 = Some (Z.of_nat (List.length blocks)) -> Forall is_adf12_block blocks ->
+  parse_adf12 ((c5 ++ tail) :: fold_right (fun be r => fst be r) rest blocks)
+  = Ok (fold_left (fun a be => tbl_set (snd be) a) blocks []).
+Proof. exact adf12_file_roundtrip. Qed.
+Print Assumptions C08_adf12_file_roundtrip.
+
+(* BLOCK LOOP, ADF11 (adf11.py lines 81-123 as a state machine): any number of charge-state blocks in any order, then the
+   terminator, give the table keyed by the charge each header carries, with the axis order of C08_adf11_axis_order.
+   Which regular expression matches which line enters as hypotheses (block11_ok, terminator_ok). *)
+Theorem C08_adf11_blocks_roundtrip :
+  forall (rx : rx11) (n_t n_d : Z) (dens temps : list Q) (bs : list block11) (t : str) (after : list str),
+  Forall (block11_ok rx n_t n_d) bs -> bs <> [] -> terminator_ok rx t after ->
+  adf11_loop rx n_t n_d (Some dens) (Some temps) (blocks11_text bs ++ t :: after)
+             {| s_start := None; s_charge := 0; s_rates := [] |}
+  = Ok (fold_left (fun (a : table) (b : block11) => tbl_set (block11_entry n_t n_d dens temps b) a) bs []).
+Proof. exact adf11_blocks_roundtrip. Qed.
+Print Assumptions C08_adf11_blocks_roundtrip.
+
+(* FILE LEVEL, ADF11, resolved or unresolved: matching first line, the lines skipped by the resolved test, the grid (first
+   n_d tokens densities, the rest temperatures), the blocks, the terminator, anything after.  Hypotheses: the first line's
+   fields and the regular-expression facts about the lines. *)
+Theorem C08_adf11_file_roundtrip :
+  forall rx z name ls l0 t0 t1 t2 t3 t4 t5 t6 more zmin zmax n_d n_t l3 grid bs t after dens temps,
+  nth_error ls 0 = Some l0 ->
+  split_2ws (strip l0) = t0 :: t1 :: t2 :: t3 :: t4 :: t5 :: t6 :: more ->
+  parse_int t0 = Some z -> parse_int t1 = Some n_d -> parse_int t2 = Some n_t ->
+  parse_int t3 = Some zmin -> parse_int t4 = Some zmax ->
+  lower_str (strip_char "/"%char t5) = name ->
+  nth_error ls 3 = Some l3 ->
+  skipn (if re_matches false (r11_resolved rx) l3 then 2 else 4) ls = grid ++ blocks11_text bs ++ t :: after ->
+  Forall (fun g => re_matches false (r11_first_sep rx) g = false) grid ->
+  (exists b bs', bs = b :: bs' /\ re_matches false (r11_first_sep rx) (b_hdr b) = true) ->
+  fromstring grid = dens ++ temps -> List.length dens = nat_of n_d ->
+  Forall (block11_ok rx n_t n_d) bs -> terminator_ok rx t after ->
+  parse_adf11 rx z name ls = Ok (fold_left (fun a b => tbl_set (block11_entry n_t n_d dens temps b) a) bs []).
+Proof. exact adf11_file_roundtrip. Qed.
+Print Assumptions C08_adf11_file_roundtrip.
+
+(* MATCHER: greedy unbounded repetition of a one-character test in the backtracking matcher equals the direct longest-first
+   search, for every minimum count, string and continuation *)
+Theorem C08_matcher_star :
+  forall (R : Type) (ci : bool) (a : re) (tst : Ascii.ascii -> bool),
+  (forall pos s cp (k : kont R), m R ci a pos s cp k = match s with c :: t => if tst c then k (S pos) t cp else None | [] => None end) ->
+  forall mn s pos cp k, m R ci (RRep mn None (RSeq [a])) pos s cp k = star_spec tst mn 0 pos s cp k.
+Proof. exact rep_unbounded. Qed.
+Print Assumptions C08_matcher_star.
+
+(* the block-header / separator expression of parse_adf11 (the AST sep_ref; coq/Gen/C08/RegexTie.v proves that the expression
+   translated from the current source IS sep_ref) decides, on EVERY string, exactly: blanks, then C's, then >= 2 dashes *)
+Theorem C08_separator_regex_is_direct : forall l, re_matches false sep_ref l = sep_direct l.
+Proof. exact sep_matcher_is_direct. Qed.
+Print Assumptions C08_separator_regex_is_direct.
+
+(* hence a data line (blanks, then a character that is neither a blank nor C, and not two dashes) never ends a block, and
+   blanks + C's + two dashes always do: two of the regular-expression hypotheses of the ADF11 theorems, discharged *)
+Theorem C08_separator_rejects_data :
+  forall pad c1 c2 rest, Forall (fun c => t_ws c = true) pad -> t_ws c1 = false -> t_C c1 = false ->
+  (t_dash c1 = false \/ t_dash c2 = false) -> re_matches false sep_ref (pad ++ c1 :: c2 :: rest) = false.
+Proof. exact sep_rejects_data. Qed.
+Print Assumptions C08_separator_rejects_data.
+
+Theorem C08_separator_accepts_header :
+  forall pad cs rest, Forall (fun c => t_ws c = true) pad -> Forall (fun c => t_C c = true) cs ->
+  re_matches false sep_ref (pad ++ cs ++ cDash :: cDash :: rest) = true.
+Proof. exact sep_accepts_header. Qed.
+Print Assumptions C08_separator_accepts_header.
+
 (* TEXT -> NUMBER on the token shapes the FORTRAN formats print: the models' int()/float() return the decimal value of the
    printed digits (Horner evaluation of the digit string, scaled by the power of ten), exactly.  These discharge the
    parse_int / parse_float hypotheses of the file-level theorems for such tokens.  Outside Coq remains only that CPython's
@@ -227,4 +320,19 @@ Proof.
   - repeat constructor.
   - repeat constructor; discriminate.
   - discriminate.
+Qed.
+
+(* non-vacuity of the ADF11 hypotheses: with the regular expressions of the source (copy in Proofs/C08_Findings.v) a block
+   header, two data lines for a 3 x 2 grid, and the 'C---' terminator satisfy block11_ok / terminator_ok *)
+Example C08_adf11_nonvacuous :
+  let nlc := String (Ascii.ascii_of_nat 10) EmptyString in
+  let b := {| b_hdr := S_ ("--------------------/ IGRD= 1  / IPRT= 1  /--------/ Z1= 2   / DATE= 13/08/96" ++ nlc)%string; b_z := 2;
+              b_data := [S_ (" -10.00000 -11.00000 -12.00000" ++ nlc)%string; S_ (" -13.00000 -14.00000 -15.00000" ++ nlc)%string] |} in
+  block11_ok rx11_unfixed 2 3 b /\ terminator_ok rx11_unfixed (S_ ("C-----------------------" ++ nlc)%string) [].
+Proof.
+  cbv zeta. unfold block11_ok, terminator_ok. repeat split; try (vm_compute; reflexivity).
+  - eexists. split; vm_compute; reflexivity.
+  - eexists. eexists. split; [reflexivity | vm_compute; reflexivity].
+  - repeat constructor.
+  - left. vm_compute. reflexivity.
 Qed.
